@@ -92,6 +92,10 @@ CASES = [
     ("h_scoping(a)", {"a": "small"}), ("h_loops(a)", {"a": "pos"}),
     ("int.from_bytes(x[i:i + 2], 'big')", {"x": "b8", "i": "small"}), ("int.from_bytes(x, 'little')", {"x": "b8"}),
     ("int.from_bytes(x[5:], 'big')", {"x": "b8"}),
+    ("sorted([a, b, c])", {"a": "small", "b": "small", "c": "small"}), ("sorted([a, b], reverse=True)", {"a": "small", "b": "small"}),
+    ("sorted([a, b, c], key=lambda v: -v)", {"a": "small", "b": "small", "c": "small"}),
+    ("max([(a, 1), (b, 2), (c, 3)], key=lambda t: t[0])[1]", {"a": "small", "b": "small", "c": "small"}),
+    ("min([a, b, c], key=lambda v: abs(v))", {"a": "small", "b": "small", "c": "small"}),
     # operator module
     ("operator.or_(a, 0x40)", {"a": "u8"}), ("functools.reduce(operator.or_, [a & 1, a & 2, a & 4], 0)", {"a": "u8"}),
     ("operator.add(a, b)", {"a": "small", "b": "small"}), ("operator.eq(a, b)", {"a": "small", "b": "small"}),
